@@ -9,7 +9,7 @@
 EXTENDS Iso, Json
 
 MCWritePaths == <<"create", "update", "applyCacheUpdate">>
-MCReadPaths == <<"row", "rows", "rowByModel", "rowsByModels", "rowsByCondition",
+MCReadPaths == <<"row", "rows", "rowByModel", "rowsByModels", "rowsByCondition", "rowByModelIndex", "rowsByModelsIndex", "getIndex", "whereListIndex",
                  "get", "list", "listValues", "whereList", "whereListValues", "whereAllList", "whereCacheList", "onAdd", "onUpdateNew", "onUpdateOld", "onDelete">>
 Families == {"runtime", "handwritten", "generated"}
 FieldMut == {<<"scalar", "overwrite">>, <<"slice", "append">>, <<"slice", "overwriteElem">>, <<"map", "insertKey">>,
